@@ -4,7 +4,7 @@ set -u
 P=$1; ID=$2
 cd /repo && git diff --quiet || { echo "/repo dirty, refusing"; exit 2; }
 git -C /repo apply "$P" || { git -C /repo apply --3way "$P" || { echo "patch does not apply"; exit 2; }; }
-cd /verif && ./check $ID; RC=$?
+cd /verif && VERIF_EVIDENCE_DIR=${TMPDIR:-/tmp}/verif-try-evidence ./check $ID; RC=$?
 git -C /repo checkout -- . ; git -C /repo reset -q
 echo "check rc=$RC"
 exit $RC
